@@ -19,7 +19,7 @@ EXPECT = [  # substring of commit subject -> checks expected to report a violati
     ("trace length exponent of 64", ["C05"]), ("ProofOptions::read_from panicked", ["C05"]),
     ("OodFrame::parse panicked", ["C05"]), ("partition exponent of 64", ["C05"]),
     ("claims zero unique queries", ["C05"]), ("different base field", ["C05"]),
-    ("fewer FRI layers", ["C05"]), ("at least as many queries", ["C05"]), ("transposition left rows uninitialized", ["C28", "C06"]), ("nodes that were never used", ["C04"]), ("constraint counts which the constructor rejects", ["C04"]), ("exceeds the field's two-adicity", ["C05"]),
+    ("fewer FRI layers", ["C05"]), ("at least as many queries", ["C05"]), ("transposition left rows uninitialized", ["C28", "C06"]), ("nodes that were never used", ["C04", "C19"]), ("constraint counts which the constructor rejects", ["C04"]), ("exceeds the field's two-adicity", ["C05"]),
 ]
 def sh(cmd, **kw):
     return subprocess.run(cmd, shell=True, capture_output=True, text=True, **kw)
